@@ -22,18 +22,18 @@ var (
 )
 
 type Solver struct {
-	sess    strings.Builder
+	sess     strings.Builder
 	preamble string
-	dead    bool
-	cmd     *exec.Cmd
-	in      io.WriteCloser
-	out     *bufio.Reader
-	pr      *Printer
-	base    map[int]bool
-	Queries int
-	Time    time.Duration
-	Unknown int
-	log     io.Writer
+	dead     bool
+	cmd      *exec.Cmd
+	in       io.WriteCloser
+	out      *bufio.Reader
+	pr       *Printer
+	base     map[int]bool
+	Queries  int
+	Time     time.Duration
+	Unknown  int
+	log      io.Writer
 }
 
 func NewSolver(timeoutMs int) *Solver {
